@@ -487,15 +487,23 @@ func checkC01(r *Run) {
 		if c := r.oneCall("C01-R5", "initFromMainStore", f, "(*baseapp.BaseApp).setConsensusParams"); c != nil {
 			gs := P.Guards(c, 0)
 			extra := 0
+			ms := q("store/types.CommitMultiStore.GetKVStore(param:app.cms, param:baseKey)")
+			allowed := []string{
+				`^!isnil\(` + ms + `\)$`,
+				`^isnil\(param:app\.baseKey\)$`,
+				`^!isnil\(store/types\.KVStore\.Get\(` + ms + `, global:baseapp\.mainConsensusParamsKey\)\)$`,
+				`^isnil\(github\.com/gogo/protobuf/proto\.Unmarshal\(store/types\.KVStore\.Get\(` + ms + `, global:baseapp\.mainConsensusParamsKey\), .*\)\)$`,
+			}
 			for _, a := range gs {
-				k := a.Key()
-				if strings.Contains(k, "mainStore") || strings.Contains(k, "baseKey") || strings.Contains(k, "GetKVStore") {
-					continue
+				okA := false
+				for _, re := range allowed {
+					if reMatch(re, a.Key()) {
+						okA = true
+					}
 				}
-				if strings.Contains(k, "proto.Unmarshal") || strings.Contains(k, "consensus_params") || strings.Contains(k, "mainConsensusParamsKey") {
-					continue
+				if !okA {
+					extra++
 				}
-				extra++
 			}
 			r.Check(extra == 0, "C01-R5", "initFromMainStore/params-restored-as-stored", P.InstrPos(c), "stored consensus params are memoized whenever present and decodable", "on restart the stored consensus params are memoized only under {"+strings.Join(atomStrings(gs), " ; ")+"}: a restarted instance can run with different parameters than an uninterrupted one")
 		}
